@@ -171,7 +171,10 @@ def mutations(ep, adesc, outcome, args, salt):
             short = ["", "Bearer", "Bear", "B"] if kind == "auth" else ["", "sid", "a=b", "s"]
             return [{"op": "set_header", "name": hname, "value": ([tok, ("Bearer" if kind == "auth" else "sid") + tok, tok + tok] + short)[salt % 7]}], None
         if outcome == "badprefix":
-            return [{"op": "set_header", "name": hname, "value": ("Basic " if kind == "auth" else "other=") + tok}], None
+            # another scheme / cookie name; the credential before or after a blank (a diagnostic that echoes "the scheme" must not carry it)
+            forms = ["Basic " + tok, tok + " Bearer", "Bearer" + tok + " x", "Basic " + tok] if kind == "auth" else \
+                ["other=" + tok, "FOOBAR=" + tok + "; theme=dark", "theme=dark; sid2=" + tok, "other=" + tok + " sid=x"]
+            return [{"op": "set_header", "name": hname, "value": forms[salt % 4]}], None
         # not a token: a blank and foreign characters, data after the padding, padding first
         bad_tok = [tok + " b@d", tok + "=." + tok, "=" + tok, tok + "==x" + tok][salt % 4]
         return [{"op": "set_header", "name": hname, "value": ("Bearer " if kind == "auth" else "sid=") + bad_tok}], None
